@@ -216,7 +216,46 @@ def count_oracle(ctx, quick):
     return len(tasks)
 
 
-FOCUS = [("[", "\\*", ""), ("[", "\\", ""), ("a", " ", "b"), ("[a](/u \"", "\\!", ""), ("[^", "\\]", ""), ("[x]: /u '", "\\'", ""), ("<a ", "b=\"c\" ", ""), ("", "a ", "\n"), ("", "  ", "x"),
+# ---------------------------------------------------------------- indexed families: n DISTINCT definitions and n uses
+INDEXED = [("*[a{i}Y]: x\n", "\n", "a[a[a[a["), ("*[k{i}]: x\n", "\n", "k{i} "), ("[^n{i}]: x\n\n", "\n", "[^n{i}] "), ("[l{i}]: /u\n", "\n", "[l{i}] [x][l{i}] "),
+           ("# h{i}\n", "\n.. toc::\n", ""), ("t{i}\n: d{i}\n\n", "", ""), ("| a{i} | b |\n|---|---|\n| c | d |\n\n", "", ""), ("- [ ] i{i}\n", "", ""),
+           ("*[a{i}]: x\n", "\n", "a{i}a "), ("[l{i}]: /u\n", "\n", "[l"), ("[^n{i}]: x\n\n", "\n", "[^n")]
+
+
+def build_indexed(f, n):
+    a, mid, b = f
+    return "".join(a.replace("{i}", str(i)) for i in range(n)) + mid + "".join(b.replace("{i}", str(i)) for i in range(n))
+
+
+def indexed_oracle(ctx, quick):
+    """distinct keys cannot be pumped by repeating one unit: n definitions followed by n uses, measured alone"""
+    os.environ["MISTUNE_SRC"] = common.repo_src()
+    sizes = [75, 150, 300, 600] if quick else [100, 200, 400, 800, 1600]
+    cfg = CFGS[3]
+    n_eval = 0
+    for f in INDEXED:
+        alone = {}
+        for n in sizes:
+            r = worker.run_all([(cfg, build_indexed(f, n), 40.0)], workers=1)[0]
+            n_eval += 1
+            alone[n] = r["cpu"] if r["status"] == "ok" else r["status"]
+            if r["status"] != "ok":
+                break
+        rep = {"prefix": "", "unit": "", "suffix": "", "indexed": list(f), "config": cfg, "cpu_s": {str(k): v for k, v in alone.items()}, "doc_n3": build_indexed(f, 3)}
+        pts = [(n, v) for n, v in alone.items() if isinstance(v, float)]
+        if "timeout" in alone.values():
+            k = [n for n, v in alone.items() if v == "timeout"][0]
+            ctx.fail("time:timeout:indexed:%s" % f[0].split("{")[0].strip(), "%d definitions %r and as many uses %r (%d characters) do not convert within 40 s under %s" % (k, f[0], f[2], len(build_indexed(f, k)), cfg["name"]), rep)
+        elif len(pts) >= 4:
+            big = [(n, v) for n, v in pts if v > 0.02] or pts
+            if len(big) >= 3:
+                sl = slope([n for n, _ in big], [v for _, v in big])
+                if sl > 2.35 and big[-1][1] > 0.5:
+                    ctx.fail("time:superquadratic:indexed:%s" % f[0].split("{")[0].strip(), "n definitions %r followed by n uses %r: CPU time grows with exponent %.2f (%s) under %s" % (f[0], f[2], sl, {n: round(v, 3) for n, v in pts}, cfg["name"]), rep)
+    return n_eval
+
+
+FOCUS = [("<x ", "a=b\tc\t", ""), ("a <x ", "a=b\nc ", ">"), ("a >!", " ", "b"), ("x >! ", "a ", ""), ("[", "\\*", ""), ("[", "\\", ""), ("a", " ", "b"), ("[a](/u \"", "\\!", ""), ("[^", "\\]", ""), ("[x]: /u '", "\\'", ""), ("<a ", "b=\"c\" ", ""), ("", "a ", "\n"), ("", "  ", "x"),
          ("*[", "\\]", ""), ("", "\\\n", ""), ("", " \t", "x")]
 
 
@@ -225,6 +264,7 @@ def run(ctx):
     q = ctx.quick()
     fams = FOCUS + families(ctx, 60 if q else 1500)
     n = count_oracle(ctx, q)
+    n += indexed_oracle(ctx, q)
     n += oracle(ctx, fams, q)
     if ctx.broken and not ctx.failures:
         ctx.notes.append("search mode entered: " + "; ".join(ctx.broken)[:300])
@@ -243,6 +283,11 @@ def run(ctx):
 def replay(ctx, path):
     r = json.load(open(path))["replay"]
     os.environ["MISTUNE_SRC"] = common.repo_src()
+    if r.get("indexed"):
+        f = tuple(r["indexed"])
+        for n in (75, 150, 300, 600):
+            print(n, worker.run_all([(r["config"], build_indexed(f, n), 60.0)], workers=1)[0])
+        return 1
     if r.get("family3"):
         f = tuple(r["family3"])
         for n in (6, 12, 24, 48):
